@@ -48,6 +48,14 @@ def call_builtin(I, name, args, kwargs, fr):
             return VInt(p.fresh_int('undef'))
         if v is VNone and not fr.spec:
             I.raise_builtin('TypeError', 'len of None')
+        if isinstance(v, VMap):
+            # number of keys of a symbolic dict: an unknown non-negative number (stable per map)
+            n_ = v.cache.get('__len__')
+            if n_ is None:
+                n_ = z3.Int(v.name + '.len')
+                v.cache['__len__'] = n_
+            I.path.assume(n_ >= 0)
+            return VInt(n_)
         raise OutOfSubset('len of %r' % (v,))
     if name in ('bytearray', 'bytes'):
         kind = name
